@@ -176,9 +176,15 @@ func (l *recLife) StopAndWait(ctx context.Context, id string) error {
 		// C16: the stored configuration of a running pipeline is touched only after it has
 		// fully drained and its positions are durable - evaluated the moment the drain that
 		// the apply relies on reports success, before the import writes anything
-		w.or.drainAs = "C16"
-		w.or.checkDrained(w, "ApplyPlanLive: StopAndWait")
-		w.or.drainAs = ""
+		if len(w.faultFired) == 0 {
+			w.or.drainAs = "C16"
+			w.or.checkDrained(w, "ApplyPlanLive: StopAndWait")
+			w.or.drainAs = ""
+		} else if open := w.or.openSessions(w); len(open) > 0 {
+			// (a run that met faults may end without the final plugin acks - its stream is
+			// cancelled with it; what the apply needs is that nothing is open any more)
+			w.violate("C16", "config-changed-while-running", fmt.Sprintf("StopAndWait reported success to ApplyPlanLive while plugin sessions %v were still open", open))
+		}
 	}
 	return err
 }
